@@ -398,6 +398,7 @@ def main(argv=None):
     ap.add_argument("--replay", default=None)
     ap.add_argument("--json", action="store_true")
     ap.add_argument("--no-evidence", action="store_true")
+    ap.add_argument("--exec-trace", action="store_true")
     ap.add_argument("--one", type=int, default=None, help="execute the single run with this run seed and print its result")
     a = ap.parse_args(argv)
     prop = a.prop.upper()
@@ -412,6 +413,11 @@ def main(argv=None):
     if prop not in PROPS:
         print(f"unknown property {prop}; claimed: {PROPS}")
         return 2
+    if a.exec_trace:
+        from .machines.c19 import exec_trace_main
+
+        worker_init()
+        return exec_trace_main()
     if a.replay:
         worker_init() if not a.json else None
         return replay_file(prop, a.replay, as_json=a.json)
